@@ -4,6 +4,7 @@ validators (I->S); verdict classes -> VIOLATION lines; evidence."""
 import json
 import os
 import subprocess
+import time
 
 from . import common as C
 from .common import Ctx, ToolError, log, parallel, run_tlc
@@ -685,7 +686,8 @@ def routes_conformance(ctx, tr):
             key = (r["proc"], r["tid"], r["obs"][0]["e"].split(".", 1)[1])
             if ro == [101]:
                 seen_impl[key] = True
-            elif len(ro) == 3 and ro[0] == 100 and ro[1] in (111, 112, 113) and ro[2] == 120:
+            elif len(ro) == 3 and ro[0] in (100, 101) and ro[1] in (111, 112, 113) and ro[2] == 120 and (ro[0] == 100 or r.get("vehicle") == "miri"):
+                # (under Miri function-pointer equality is not stable, so the "loaded detect" marker may read 101)
                 detects += 1
                 levels.add(ro[1])
                 if seen_impl.get(key):
@@ -730,6 +732,29 @@ def c15(ctx):
             ctx.evaluations += s_[3]
         total_detects += routes_conformance(ctx, tr)
         ctx.sample({"from": "conc trace", "case": C.record_at(tr, 1)})
+    # optional vehicle: the same scenario under host Miri with seed-controlled schedules (stale Relaxed reads per seed)
+    try:
+        from . import miri
+        t0 = time.time()
+        files = miri.conc_host(ctx, list(range(ctx.seed * 100 + 1, ctx.seed * 100 + (4 if q else 25))))
+        mt = os.path.join(ctx.dir, "conc_miri.ndjson")
+        with open(mt, "w") as o:
+            for fp in files:
+                for line in open(fp):
+                    r = json.loads(line)
+                    r["vehicle"] = "miri"
+                    r["proc"] = "miri:%s:%s" % (os.path.basename(fp), r.get("proc"))
+                    o.write(json.dumps(r) + "\n")
+        n, viol, summ = C.validate_trace(ctx, "Trace_Lib", mt, {}, "conc_miri", max_records=400, par=8)
+        lib_trace_violations(ctx, mt, "concurrent@miri-host", viol)
+        d = routes_conformance(ctx, mt)
+        total_detects += d
+        ctx.add_counters({"miri_host_seeds": len(files), "miri_host_detects": d})
+        log("[miri] host schedules: %d seeds, %d records, %d racing detects, %.1fs" % (len(files), n, d, time.time() - t0))
+    except ToolError as e:
+        ctx.vehicles_skipped.append({"vehicle": "miri-host", "reason": str(e)[:300]})
+    except Exception as e:
+        ctx.vehicles_skipped.append({"vehicle": "miri-host", "reason": "driver error %r" % (e,)})
     ctx.nontrivial += total_detects
     ctx.assumptions.append("schedules of the real code are sampled (fresh processes, barrier release, 2..32 threads), not exhausted; exhaustiveness over schedules is at model level")
     return C.finish(ctx, "model_checking",
